@@ -1150,7 +1150,7 @@ func RunSliceExpr(ctx *Task, expr *ast.SliceExpr) *errchain.PlError {
 				startInt = 0
 			}
 			for i := startInt; i < endInt && i < length; i += stepInt {
-				result += string(str[i])
+				result += str[i : i+1]
 				if stepInt > length-1-i {
 					// the next index is past the end (and i += stepInt could overflow)
 					break
@@ -1164,7 +1164,7 @@ func RunSliceExpr(ctx *Task, expr *ast.SliceExpr) *errchain.PlError {
 				startInt = length - 1
 			}
 			for i := startInt; i > endInt && i >= 0; i += stepInt {
-				result += string(str[i])
+				result += str[i : i+1]
 				if stepInt < -i {
 					// the next index is before the start (and i += stepInt could overflow)
 					break
